@@ -19,14 +19,16 @@ VARIABLES l, h, regs, cand
 vars == <<l, h, regs, cand>>
 
 Has(r, f) == f \in DOMAIN r
-Pos == 1..h.m
+(* number of positions of instance i: instances of another parameter class may differ in m (then "ms" is present) *)
+MOf(i) == IF Has(h, "ms") THEN h.ms[i] ELSE h.m
+PosOf(st) == 1..Len(st[1])
 Better(a, b) == IF h.dir = "min" THEN a < b ELSE a > b
-MinOf(rg) == CHOOSE v \in {rg[p] : p \in Pos} : \A p \in Pos : v <= rg[p]
+MinOf(rg) == CHOOSE v \in {rg[p] : p \in 1..Len(rg)} : \A p \in 1..Len(rg) : v <= rg[p]
 
 (* join one item (table t, identity x) into a (registers, candidates) pair *)
 JoinItem(st, t, x) ==
-  <<[p \in Pos |-> IF Better(t[p], st[1][p]) THEN t[p] ELSE st[1][p]],
-    [p \in Pos |-> IF Better(t[p], st[1][p]) THEN {x}
+  <<[p \in PosOf(st) |-> IF Better(t[p], st[1][p]) THEN t[p] ELSE st[1][p]],
+    [p \in PosOf(st) |-> IF Better(t[p], st[1][p]) THEN {x}
                    ELSE IF t[p] = st[1][p] THEN st[2][p] \cup {x} ELSE st[2][p]]>>
 
 RECURSIVE JoinSeq(_, _, _)
@@ -34,16 +36,16 @@ JoinSeq(st, c, xs) == IF xs = <<>> THEN st
                       ELSE JoinSeq(JoinItem(st, h.tables[c][Head(xs)], Head(xs)), c, Tail(xs))
 
 JoinInst(a, b) ==
-  <<[p \in Pos |-> IF Better(b[1][p], a[1][p]) THEN b[1][p] ELSE a[1][p]],
-    [p \in Pos |-> IF Better(b[1][p], a[1][p]) THEN b[2][p]
+  <<[p \in PosOf(a) |-> IF Better(b[1][p], a[1][p]) THEN b[1][p] ELSE a[1][p]],
+    [p \in PosOf(a) |-> IF Better(b[1][p], a[1][p]) THEN b[2][p]
                    ELSE IF b[1][p] = a[1][p] THEN a[2][p] \cup b[2][p] ELSE a[2][p]]>>
 
-Fresh == <<[p \in Pos |-> h.init], [p \in Pos |-> {}]>>
+Fresh(i) == <<[p \in 1..MOf(i) |-> h.init], [p \in 1..MOf(i) |-> {}]>>
 
 (* what the real object showed after the call, against the specification state st *)
 ObsOK(r, st) ==
-  /\ h.pub => (Len(r.obs) = h.m /\ \A p \in Pos : r.obs[p] = st[1][p])
-  /\ h.sig => (Len(r.sig) = h.m /\ \A p \in Pos :
+  /\ h.pub => (Len(r.obs) = Len(st[1]) /\ \A p \in PosOf(st) : r.obs[p] = st[1][p])
+  /\ h.sig => (Len(r.sig) = Len(st[1]) /\ \A p \in PosOf(st) :
                  IF st[2][p] = {} THEN r.sig[p] = 0 ELSE r.sig[p] \in st[2][p])
   /\ Has(r, "low") => (r.low >= 0 /\ r.low <= MinOf(st[1]))
 
@@ -53,8 +55,9 @@ IsEvent(e) == l <= Len(Rec) /\ Rec[l].op = e /\ l' = l + 1
 
 New == /\ IsEvent("new")
        /\ h' = Rec[l]
-       /\ regs' = [i \in 1..Rec[l].ninst |-> [p \in 1..Rec[l].m |-> Rec[l].init]]
-       /\ cand' = [i \in 1..Rec[l].ninst |-> [p \in 1..Rec[l].m |-> {}]]
+       /\ LET mi(i) == IF Has(Rec[l], "ms") THEN Rec[l].ms[i] ELSE Rec[l].m IN
+          /\ regs' = [i \in 1..Rec[l].ninst |-> [p \in 1..mi(i) |-> Rec[l].init]]
+          /\ cand' = [i \in 1..Rec[l].ninst |-> [p \in 1..mi(i) |-> {}]]
 
 Set(i, st) == /\ regs' = [regs EXCEPT ![i] = st[1]]
               /\ cand' = [cand EXCEPT ![i] = st[2]]
@@ -80,7 +83,7 @@ Merge == /\ IsEvent("mg")
 
 Reinit == /\ IsEvent("re")
           /\ LET r == Rec[l]  i == r.i
-             IN /\ r.out = "ok" /\ ObsOK(r, Fresh) /\ Set(i, Fresh)
+             IN /\ r.out = "ok" /\ ObsOK(r, Fresh(i)) /\ Set(i, Fresh(i))
                 /\ Has(r, "low") => (r.low = 0 /\ r.ovf = 0)   \* like a new sketcher
 
 TraceNext == New \/ Sketch \/ Slice \/ Merge \/ Reinit
